@@ -24,6 +24,7 @@ import PgProofs.GenoRandom
 import PgProofs.GenoOdo3
 import PgProofs.GenoIncr
 import PgProofs.GenoCount
+import PgGen.C11Tables
 namespace Pg.Geno
 
 /-! ### Full statements -/
@@ -153,6 +154,57 @@ theorem C11_sweep (g : Spec) (fuel : Nat) : sweepRun g fuel none = g.iter fuel :
   cases fuel with
   | zero => rfl
   | succ f => simp [sweepRun, sweepPropose, Spec.iter, h]
+
+/-! ### Shape obligations: the source the model was written from (tables regenerated from /repo on
+every run by translate/t_c11.py; an edit of these functions breaks the named obligation) -/
+
+/-- `_space_size(s, k)` as mirrored by `sizeK` (PgModel/Geno/Enum.lean), branch by branch. -/
+def expectedSizeCases : List (String × String) := [
+  ("k == 0", "return 1"),
+  ("k == 1", "return sum(s)"),
+  ("k > len(s) and self.distinct", "return 0"),
+  ("len(s) == 1", "assert not self.distinct ; return s[0] ** k"),
+  ("self.distinct and self.sorted", "return s[0] * _space_size(s[1:], k - 1) + _space_size(s[1:], k)"),
+  ("self.distinct", "return s[0] * k * _space_size(s[1:], k - 1) + _space_size(s[1:], k)"),
+  ("self.sorted", "size = 0 ; for i in range(k + 1): ; size += s[0] ** i * _space_size(s[1:], k - i) ; return size"),
+  ("else", "return _space_size(s, 1) ** k")
+]
+
+/-- `next_value_for_choice` as mirrored by `nextValueForChoice`. -/
+def expectedNextValue : List String := [
+  "n = len(self.candidates)",
+  "next_value = current_choice + 1",
+  "if self.distinct: ; possible_choices = set(range(next_value, n)) ; possible_choices -= set(prior_choices) ; next_value = min(possible_choices) if possible_choices else n",
+  "return next_value if next_value < n else None"
+]
+
+/-- `min_remaining_choices` as mirrored by `minRemainingChoices` / `minRemLoop`. -/
+def expectedMinRemaining : List String := [
+  "if self.sorted and prior_choices: ; possible_choices = set(range(prior_choices[-1], len(self.candidates))) ; else: ; possible_choices = set(range(len(self.candidates)))",
+  "if self.distinct: ; possible_choices -= set(prior_choices)",
+  "remaining_choices = []",
+  "for _ in range(self.num_choices - len(prior_choices)): ; if not possible_choices: ; return None ; next_choice = min(possible_choices) ; if self.distinct: ; possible_choices.remove(next_choice) ; remaining_choices.append(next_choice)",
+  "return remaining_choices"
+]
+
+/-- The loop of `Choices._next_dna` as mirrored by `odoLoop`. -/
+def expectedOdoLoop : List String := [
+  "for choice_id in reversed(range(self.num_choices))",
+  "choice_dna = choice_dna_list[choice_id]",
+  "if not isinstance(choice_dna.value, int) or choice_dna.value < 0 or choice_dna.value >= len(self.candidates): ; raise ValueError",
+  "subspace_dna = DNA(None, choice_dna.children)",
+  "subspace_next_dna = self.candidates[choice_dna.value].next_dna(subspace_dna, attach_spec=False)",
+  "updated_current_choice = False",
+  "prior_choices = [choice_dna_list[i].value for i in range(choice_id)]",
+  "if subspace_next_dna is not None: ; new_choice_dna = DNA(choice_dna.value, [subspace_next_dna]) ; updated_current_choice = True ; else: ; new_choice_value = next_value_for_choice(prior_choices, choice_dna.value) ; if new_choice_value is not None: ; new_choice_dna = DNA(new_choice_value, [self.candidates[new_choice_value].first_dna(attach_spec=False)]) ; updated_current_choice = True",
+  "if updated_current_choice: ; remaining_choices = min_remaining_choices(prior_choices + [new_choice_dna.value]) ; if remaining_choices is not None: ; subdna_list = choice_dna_list[:choice_id] + [new_choice_dna] + [DNA(v, [self.candidates[v].first_dna(attach_spec=False)]) for v in remaining_choices] ; return DNA(parent_choice_value, subdna_list)",
+  "after the loop: return None"
+]
+
+theorem C11_shape_space_size : Pg.C11Gen.sizeCases = expectedSizeCases := by rfl
+theorem C11_shape_next_value_for_choice : Pg.C11Gen.nextValueStmts = expectedNextValue := by rfl
+theorem C11_shape_min_remaining_choices : Pg.C11Gen.minRemainingStmts = expectedMinRemaining := by rfl
+theorem C11_shape_next_dna_loop : Pg.C11Gen.odoLoopStmts = expectedOdoLoop := by rfl
 
 /-! ### Known defect F20c: binding a float ignores the children of the node -/
 
